@@ -880,3 +880,40 @@ def substr_in_bounds(ss):
     searched = [x for x in (a, b) if x not in (ZERO, LEN)]
     return len(searched) <= 1
 
+
+def split_bool_returns(paths):
+    """returning paths of a bool function with every non-constant result split into its two outcomes: `a && b` written as an
+    expression returns b itself on the path where a held; that path stands for (b true -> true) and (b false -> false)"""
+    out = []
+    for p in ret_paths(paths or []):
+        v = p.end[1]
+        if const_of(v) in (True, False):
+            out.append(p)
+            continue
+        flip = False
+        c = v
+        while isinstance(c, tuple) and c and c[0] == "unop" and c[1] == "Not":
+            c = c[2]
+            flip = not flip
+        for truth in (True, False):
+            ev = mir.Event("cond", p.blocks[-1] if p.blocks else 0, term=c, fact=("eq", truth != flip))
+            out.append(mir.Path(list(p.blocks), list(p.events) + [ev], ("return", ("const", "bool", truth)), p.env, p.facts))
+    return out
+
+
+def has_try(t):
+    """the term contains the success payload of a fallible call: `x?` in MIR form ((Try::branch(x) as Continue).0) or in the evaluated
+    form ((x as Ok).0 / (x as Some).0 on the path where x succeeded).  What happens on the failure path is ERRPROP's business."""
+    if find_calls(t, "Try>::branch"):
+        return True
+    return mentions(t, lambda s: s[0] == "downcast" and s[2] in ("Ok", "Some") and is_call(strip_refs(s[1])))
+
+
+def is_propagated_err(t):
+    """the returned value re-raises a callee's failure: `callee(..)?` in MIR form (from_residual(..)) or evaluated
+    (Err(.. (callee(..) as Err).0 ..)); as opposed to an error the function constructs itself"""
+    if find_calls(t, "from_residual"):
+        return True
+    e = unwrap_err(t)
+    return e is not None and mentions(e, lambda s: s[0] == "downcast" and s[2] == "Err" and is_call(strip_refs(s[1])))
+
